@@ -5,6 +5,7 @@ Neutrino/Lemmas/BlockMgr.lean.
 -/
 import Neutrino.Lemmas.BlockMgrInv
 import Neutrino.Gen.BlockMgr
+import Neutrino.Lemmas.HeaderList
 namespace Neutrino.BM
 
 /-- The invariant C01/C02/C19 share (DESIGN 6.6), C01 part: the stored chain is
@@ -101,6 +102,17 @@ theorem C01_source_facts :
     Gen.BlockMgr.reorgArmUsesReorgList = true ∧
     Gen.BlockMgr.equalWorkReturns = true ∧
     Gen.BlockMgr.numMaxMemHeaders = 10000 := by decide
+
+/-- **`Node.Ancestor` never returns a stale slot** (headerlist/header_list.go on the slot-indexed
+ring of bounded_header_list.go): in a ring satisfying the ring invariant - which
+`ResetHeaderState` establishes (`HL.reset_inv`) - the walk from the live node `k` behind the back
+returns the live node of the asked height if it is at or below that node and among the last `len`
+pushed, and `nil` otherwise.  (`HL.push_preserves_RInv` is stated, not yet proved; the `hl` driver
+runs the real package against the model and the live-list oracle on every run.) -/
+theorem C01_ancestor_correct (r : HL.Ring) (t top : Nat) (inv : HL.RInv r t top) (k h : Nat) (hk : k < r.len) :
+    HL.ancestor r (some (HL.slotAt r.cap t k)) h =
+      if h ≤ top - k ∧ top + 1 - r.len ≤ h then some (HL.slotAt r.cap t (top - h)) else none :=
+  HL.ancestor_correct r t top inv k h hk
 
 /-! Non-vacuity: a concrete table, a fork, a reorganisation. -/
 def exTbl : Tbl :=
